@@ -165,7 +165,7 @@ class Single(Stream):
                 base = [[abs(v) + 0.01 for v in row] for row in base]
             e = _spec.make_edges(es, base)
             if es.get('from_data'):
-                es = {'explicit': [float(v) for v in e]}
+                es = {'explicit': [float(v) for v in e], 'src': 'from-data-' + es['scale']}
             g = _spec.grid_for(e, with_nan=True, fine=True)
             p_grid = rng.choice([0.2, 0.6, 1.0])
             lo, hi = float(e[0]), float(e[-1])
@@ -215,7 +215,7 @@ class Single(Stream):
 
     def tags(self, case, out):
         t = _spec.hht_tags(case['F'], self._edges(case), case['mode'])
-        t.append('edges=' + ('explicit' if 'explicit' in case['edges'] else case['edges'].get('scale', '?')
+        t.append('edges=' + (case['edges'].get('src', 'explicit') if 'explicit' in case['edges'] else case['edges'].get('scale', '?')
                              + ('-from-data' if case['edges'].get('from_data') else '')))
         return t
 
@@ -252,6 +252,7 @@ class Malformed(Stream):
             {'F': [[1.5, 2.5]], 'A': [[1.0, 2.0]], 'e': [], 'mode': 'energy', 'why': 'no-edges'},
             {'F': [[1.5, 0.5, 2.5]], 'A': [[1.0, 2.0, 4.0]], 'e': [1.0], 'mode': 'amplitude', 'why': 'single-edge'},
             {'F': [1.5, 2.5], 'A': [1.0, 2.0], 'e': lin, 'mode': 'energy', 'why': 'vector-to-1d'},
+            {'F': [], 'A': [], 'e': lin, 'mode': 'energy', 'why': 'no-samples', 'shape': [0, 2]},
         ]
 
     def generate(self, rng, tier):
@@ -279,11 +280,19 @@ class Malformed(Stream):
     def _same_shape(self, case):
         return np.shape(_spec.arr(case['F'])) == np.shape(_spec.arr(case['A']))
 
+    def _arrays(self, case):
+        F, A = _spec.arr(case['F']), _spec.arr(case['A'])
+        if 'shape' in case:      # JSON lists cannot carry the shape of an empty array
+            F, A = F.reshape(case['shape']), A.reshape(case['shape'])
+        return F, A
+
     def impl(self, case):
-        return _spec.run_hht(case['F'], case['A'], case['e'], case['mode'], do_1d=self._same_shape(case))
+        F, A = self._arrays(case)
+        return _spec.run_hht(F, A, case['e'], case['mode'], do_1d=self._same_shape(case))
 
     def ops(self, case, out):
-        return _spec.hht_ops(case['F'], case['A'], case['e'], case['mode'], do_1d=self._same_shape(case))
+        F, A = self._arrays(case)
+        return _spec.hht_ops(F, A, case['e'], case['mode'], do_1d=self._same_shape(case))
 
     def compare(self, case, out, results):
         if isinstance(out, ImplError):
@@ -307,6 +316,9 @@ class Malformed(Stream):
                     fs.append(Failure('single-edge-nonempty', str(out['dense'])))
             elif why == 'ok':
                 fs += _spec.hht_holds(case['F'], case['A'], case['e'], case['mode'], out)
+        elif why == 'no-samples':
+            if out['dense'].get('shape') != [len(case['e']) - 1, 0] or out['oned'].get('v') != [0.0] * (2 * (len(case['e']) - 1)):
+                fs.append(Failure('no-samples-not-empty', str(out)[:300]))
         return fs
 
     def tags(self, case, out):
